@@ -426,6 +426,12 @@ class Gen:
         self.stat('case:host')
         h = self.host()
         if self.r.randrange(4) == 0: h = self.mutate(h)
+        if self.r.randrange(150) == 0:
+            # VERY long hosts on the IDNA path (beyond the 1024-unit inline buffers, and beyond 2048: a second, heap-to-heap
+            # growth of the conversion buffers)
+            self.stat('host:very-long')
+            lab = self.pick(['\u00e4' + 'a' * 50, '%C3%A4' + 'b' * 40, 'xn--' + 'a' * 30, 'a' * 63])
+            h = '.'.join([lab] * self.pick([21, 25, 45, 60])) + self.pick(['', '.com', '.\u00e4'])
         e = self.enc(50)
         x = self.r.randrange(100)
         # the instances of the IDNA hypotheses of the theorems, at this host, on the oracle
